@@ -50,41 +50,7 @@ func runC13(r *Report) {
 	checkThenActSameSection(r, "R-C13-1", memPkg, "Storage", "data", "mu")
 
 	// ---- R-C13-2 zero expiration = never ---------------------------------
-	for _, f := range r.P.FuncsIn(memPkg) {
-		Instrs(f, func(in ssa.Instruction) {
-			ci, ok := in.(*ssa.Call)
-			if !ok {
-				return
-			}
-			c := CalleeOf(ci)
-			if c.Pkg != "time" || c.Recv != "Time" || (c.Name != "After" && c.Name != "Before" && c.Name != "Compare") {
-				return
-			}
-			var exp ssa.Value
-			for _, a := range ci.Call.Args {
-				if t, fld, _, ok := FieldOf(a); ok && t == "StorageItem" && fld == "Expiration" {
-					exp = a
-				}
-			}
-			if exp == nil {
-				return
-			}
-			_, _, base, _ := FieldOf(exp)
-			guarded := false
-			for _, ft := range Facts(ci.Block()) {
-				zc, ok := stripValue(ft.Cond).(*ssa.Call)
-				if !ok || !CalleeOf(zc).Is("time:Time.IsZero") || ft.Pol {
-					continue
-				}
-				if t, fld, b2, ok := FieldOf(zc.Call.Args[0]); ok && t == "StorageItem" && fld == "Expiration" && sameItem(b2, base) {
-					guarded = true
-				}
-			}
-			r.Ob("R-C13-2", ci.Pos(), guarded,
-				"comparison of a stored expiration with the clock must be conjoined with !Expiration.IsZero() of the same item (zero = never expires)",
-				r.P.FuncName(f), "clock-compare:"+c.Name)
-		})
-	}
+	checkZeroExpiryGuard(r, "R-C13-2", memPkg, "StorageItem", "Expiration")
 	r.Floor("R-C13-2", 12, "expiry comparisons in the memory backend")
 
 	// ---- R-C13-5 expired entries are absent / expiry-driven deletes re-validate ---
@@ -190,7 +156,7 @@ func guardedBy(r *Report, rule, pkg, typ, field, lockField string, exempt map[st
 		fn := fa.Fn
 		top := Outermost(fn)
 		name := top.Name()
-		if why, ok := exempt[name]; ok {
+		if why, ok := exempt[name]; ok && !strings.HasPrefix(why, "helper:") {
 			r.Pass(rule, fa.In.Pos(), "exempt: "+why, r.P.FuncName(fn), typ+"."+field)
 			continue
 		}
@@ -198,7 +164,7 @@ func guardedBy(r *Report, rule, pkg, typ, field, lockField string, exempt map[st
 			continue
 		}
 		key := []string{r.P.FuncName(fn), typ + "." + field + map[bool]string{true: ":write", false: ":read"}[fa.Write]}
-		if strings.HasSuffix(name, "Locked") {
+		if strings.HasSuffix(name, "Locked") || strings.HasPrefix(exempt[name], "helper:") {
 			// holds-lock-on-entry helper: every caller must hold the lock at the call
 			checkLockedHelperCallers(r, rule, top, lockField, fa.Write)
 			continue
@@ -447,6 +413,11 @@ func checkTTLUses(r *Report, f *ssa.Function, p *ssa.Parameter) {
 // expiryCompare: v is (derived from) a clock comparison on StorageItem.Expiration.
 // Returns the comparison call, the item base and whether v==true means "expired".
 func expiryCompare(v ssa.Value, depth int) (call *ssa.Call, item ssa.Value, trueMeansExpired bool, ok bool) {
+	return expiryCompareT(v, depth, "StorageItem", "Expiration")
+}
+
+// expiryCompareT is expiryCompare for an arbitrary record type / expiry field.
+func expiryCompareT(v ssa.Value, depth int, typ, field string) (call *ssa.Call, item ssa.Value, trueMeansExpired bool, ok bool) {
 	if depth > 4 {
 		return nil, nil, false, false
 	}
@@ -459,10 +430,10 @@ func expiryCompare(v ssa.Value, depth int) (call *ssa.Call, item ssa.Value, true
 		}
 		// now.After(exp): true = expired ; now.Before(exp): true = alive ; exp.After(now): true = alive ; exp.Before(now): true = expired
 		recvIsExp, argIsExp := false, false
-		if t, f, b, ok := FieldOf(x.Call.Args[0]); ok && t == "StorageItem" && f == "Expiration" {
+		if t, f, b, ok := FieldOf(x.Call.Args[0]); ok && t == typ && f == field {
 			recvIsExp, item = true, b
 		}
-		if t, f, b, ok := FieldOf(x.Call.Args[1]); ok && t == "StorageItem" && f == "Expiration" {
+		if t, f, b, ok := FieldOf(x.Call.Args[1]); ok && t == typ && f == field {
 			argIsExp, item = true, b
 		}
 		if recvIsExp == argIsExp {
@@ -476,7 +447,7 @@ func expiryCompare(v ssa.Value, depth int) (call *ssa.Call, item ssa.Value, true
 			if _, isC := ConstBool(e); isC {
 				continue
 			}
-			if c, it, tme, ok := expiryCompare(e, depth+1); ok {
+			if c, it, tme, ok := expiryCompareT(e, depth+1, typ, field); ok {
 				return c, it, tme == pol, true
 			}
 		}
@@ -619,4 +590,45 @@ func defChain(v ssa.Value) map[ssa.Instruction]bool {
 		}
 	}
 	return out
+}
+
+// checkZeroExpiryGuard: every ordering comparison of typ.field (a time.Time
+// whose zero value means "never") with another time in package pkg is
+// dominated by !field.IsZero() of the same record.
+func checkZeroExpiryGuard(r *Report, rule, pkg, typ, field string) {
+	for _, f := range r.P.FuncsIn(pkg) {
+		Instrs(f, func(in ssa.Instruction) {
+			ci, ok := in.(*ssa.Call)
+			if !ok {
+				return
+			}
+			c := CalleeOf(ci)
+			if c.Pkg != "time" || c.Recv != "Time" || (c.Name != "After" && c.Name != "Before" && c.Name != "Compare") {
+				return
+			}
+			var exp ssa.Value
+			for _, a := range ci.Call.Args {
+				if t, fld, _, ok := FieldOf(a); ok && t == typ && fld == field {
+					exp = a
+				}
+			}
+			if exp == nil {
+				return
+			}
+			_, _, base, _ := FieldOf(exp)
+			guarded := false
+			for _, ft := range Facts(ci.Block()) {
+				zc, ok := stripValue(ft.Cond).(*ssa.Call)
+				if !ok || !CalleeOf(zc).Is("time:Time.IsZero") || ft.Pol {
+					continue
+				}
+				if t, fld, b2, ok := FieldOf(zc.Call.Args[0]); ok && t == typ && fld == field && sameItem(b2, base) {
+					guarded = true
+				}
+			}
+			r.Ob(rule, ci.Pos(), guarded,
+				"comparison of "+typ+"."+field+" with the clock must be conjoined with !"+field+".IsZero() of the same record (zero = never expires)",
+				r.P.FuncName(f), "clock-compare:"+c.Name)
+		})
+	}
 }
